@@ -34,7 +34,7 @@ CHECKS = {
     "C19": {
         "level": "model_checking",
         "units": [
-            unit("c19-common", "internal/common", ["zz_verif_c19_test.go"], "^TestVerifC19", shards={"quick": 8, "thorough": 16}),
+            unit("c19-common", "internal/common", ["zz_verif_c19_test.go", "zz_verif_c19_alias_test.go"], "^TestVerifC19", shards={"quick": 8, "thorough": 16}),
             unit("c19-safeprime", "safeprime", ["zz_verif_c19_test.go"], "^TestVerifC19", shards={"quick": 3, "thorough": 8}),
             unit("c19-zkproof", "zkproof", ["zz_verif_c19_test.go"], "^TestVerifC19", shards={"quick": 2, "thorough": 8}),
         ],
